@@ -170,7 +170,7 @@ def _(eng, ci, a, sp):
 def _(eng, ci, a, sp):
     v = deref_all(a[0])
     kind = {'as_slice': 'slice', 'as_mut_slice': 'slice', 'as_str': 'str', 'as_bytes': 'slice', 'as_os_str': 'OsStr',
-            'as_path': 'Path', 'from_bytes': 'OsStr', 'new': 'Path' if ci.segs[-2] == 'Path' else 'OsStr', 'as_c_str': 'CStr',
+            'as_path': 'Path', 'from_bytes': 'OsStr', 'new': 'Path' if (len(ci.segs) > 1 and ci.segs[-2] == 'Path') else 'OsStr', 'as_c_str': 'CStr',
             'to_bytes': 'slice', 'from_utf8_unchecked': 'str', 'as_encoded_bytes': 'slice',
             'from_encoded_bytes_unchecked': 'OsStr', 'as_mut_str': 'str'}.get(ci.method, 'slice')
     if isinstance(v, (Vec, Bytes)):
@@ -974,3 +974,15 @@ def _(eng, ci, a, sp):
 @S('Iterator::size_hint')
 def _(eng, ci, a, sp):
     raise Unsupported('size_hint')
+
+
+@S('impl_slice::join', 'impl_slice::concat')
+def _(eng, ci, a, sp):
+    items = seq(a[0])
+    sepv = deref_all(a[1]) if len(a) > 1 else Bytes(())
+    out = []
+    for i, x in enumerate(items):
+        if i:
+            out.extend(sepv.items)
+        out.extend(deref_all(x).items)
+    return Vec(out, 'String')
